@@ -1034,6 +1034,7 @@ def execute(case):
     return {
         "digest": log.digest(), "failures": failures[:8], "n_failures": len(failures), "stats": dict(stats), "probes": dict(probes),
         "states": sorted(states), "nontrivial": nontrivial, "steps": len(ops),
+        "schedule": h64("sched", tuple(op.get("client") for op in ops)) & ((1 << 48) - 1),
     }
 
 
@@ -1595,3 +1596,6 @@ def describe(prop):
          "references are distinguished by title (distinct per generated reference)",
          "sampled histories: evidence, not proof"],
     )
+
+
+STATE_MEASURE = "distinct (previous call's outcome kind, this call's outcome kind, inputs carry citations?, fault armed?, number of modules) tuples"
